@@ -395,7 +395,7 @@ void World::s_write(StreamState& s, std::string bytes, IoHandler hnd) {
     crec(c).c2b_bytes = c->c2b_sent;
     h.writes[w.id].delivered = len;
     deliver_c2b(c, std::move(bytes), w.id);
-    vt d = net.write_done_delay_max > 0 ? (vt)rng.range(0, net.write_done_delay_max) : 0;
+    vt d = net.write_done_delay_max > 0 ? (vt)rng.range(std::min(net.write_done_delay_min, net.write_done_delay_max), net.write_done_delay_max) : 0;
     c->p_write = Conn::PIo{std::move(hnd), tracked(s.ex), {}, w.id};
     std::weak_ptr<Conn> wc = c;
     int wid = w.id;
